@@ -163,6 +163,14 @@ func genTxProc(r *core.Rng, nstmts int) *txProc {
 		}
 	}
 	for k := 0; k < nstmts; k++ {
+		if r.P(20) {
+			// a plain read of a file table in the middle of the transaction (the table is then cached read-only and has to be
+			// taken for update by the next statement that changes it)
+			ft := st.Tables[r.Intn(len(st.Tables))]
+			if ft.File != "" {
+				p.Units = append(p.Units, fmt.Sprintf("VAR @rd%d := (SELECT COUNT(*) FROM `%s`);\nDISPOSE @rd%d;", k, ft.Name, k))
+			}
+		}
 		if r.P(25) {
 			// statements that run other program text but change nothing: the transaction goes on as if they were not there
 			p.Units = append(p.Units, []string{"EXECUTE 'PRINT ''executed'';';", "SOURCE `../noop.sql`;", "EXECUTE 'VAR @e%d := %s; DISPOSE @e%d;' USING 7, 7;", "IF 1 = 1 THEN EXECUTE 'SELECT 1 INTO @nowhere FROM `untouched` WHERE 1 = 0;'; END IF;"}[r.Intn(2)])
@@ -191,6 +199,11 @@ func genTxProc(r *core.Rng, nstmts int) *txProc {
 		default:
 			p.Units = append(p.Units, dml(false))
 		}
+	}
+	// read a file table, change it, and name it as the target of one more statement before the end
+	if nstmts > 0 && r.P(50) {
+		ft := st.Tables[0]
+		p.Units = append(p.Units, fmt.Sprintf("VAR @rdz := (SELECT COUNT(*) FROM `%s`);\nDISPOSE @rdz;", ft.Name), fmt.Sprintf("UPDATE `%s` SET %s = 'rw1' WHERE id <= 2;", ft.Name, ft.Cols[1]), fmt.Sprintf("DELETE FROM `%s` WHERE id > 100000;", ft.Name))
 	}
 	// a table created and another one updated shortly before the end: the final COMMIT has a created and an updated file to write
 	if nstmts > 0 && created < 2 && r.P(50) {
